@@ -85,6 +85,9 @@ func C08(c *core.Ctx) {
 	}}, conf{"SendCompressedFromBytes (20 KB stream) + SendPackedFromBytes (4 KB stream) + small message", ccfg{host: []byte("h")}, func(cf ccfg) [][]concOp {
 		return [][]concOp{{concHelper(cf, true, 20000)}, {concHelper(cf, false, 4096)}, {concSend(cf, "message", small, "", true)}}
 	}})
+	confs = append(confs, conf{"3 KB record of nested arrays + small message", ccfg{host: []byte("h")}, func(cf ccfg) [][]concOp {
+		return [][]concOp{{concSend(cf, "message_arr", big, "", true)}, {concSend(cf, "message", small, "", true)}}
+	}})
 	failing := func(o concOp, acc int) concOp { o.wfail, o.wacc = true, acc; return o }
 	confs = append(confs,
 		conf{"a Write that takes part of the message and fails (temporary error) + 2 other senders", ccfg{host: []byte("h")}, func(cf ccfg) [][]concOp {
